@@ -886,11 +886,33 @@ def support_table(repo):
     return {"SupportShape.lean": {"changed": changed, "shape": t}}
 
 
+def container_shape(repo):
+    """control skeletons of the methods of the typed containers that later repairs rest on: the container fields' `validate` (F75: the
+    validator's result passes `_validate` again), the list's index assignment (F76: the index is looked up before the item is validated)
+    and the shallow-copy hooks (F72: `copy.copy` is `copy()`)"""
+    lmod, dmod = _parse(repo, os.path.join("fields", "list_field.py")), _parse(repo, os.path.join("fields", "dict_field.py"))
+    out = {}
+    for mod, cls, meth in ((lmod, "ListField", "validate"), (dmod, "DictField", "validate"), (lmod, "ListProxy", "__setitem__"), (lmod, "ListProxy", "__copy__"),
+                           (dmod, "DictProxy", "__copy__"), (lmod, "ListProxy", "copy"), (dmod, "DictProxy", "copy")):
+        out["%s.%s" % (cls, meth)] = _skeleton(_method(_class(mod, cls), meth), (), full=True)
+    return out
+
+
+def container_table(repo):
+    t = container_shape(repo)
+    lines = ["/- GENERATED by harness/extract.py from /repo on every run — do not edit. -/", "namespace Cinco.Generated", "",
+             "/-- control skeletons of `ListField.validate`, `DictField.validate`, `ListProxy.__setitem__`, `__copy__` / `copy` of both proxies -/",
+             "def containerShape : List (String × List String) := [%s]" % ", ".join("(%s, [%s])" % (lstr(k), ", ".join(lstr(x) for x in v)) for k, v in t.items()),
+             "", "end Cinco.Generated"]
+    changed = _write("ContainerShape.lean", "\n".join(lines) + "\n")
+    return {"ContainerShape.lean": {"changed": changed, "shape": t}}
+
+
 def run(repo):
     """regenerate every table; a table whose source the translator cannot read any more is left as it was (the last reading) and
     reported under "unreadable": the obligations over it are then not established for the current source"""
     notes = {}
-    for step in (tables, overrides, effects, stub_effects, defaults_table, fast_paths_table, registration_table, parser_table, keyfile_table, load_validate_table, support_table):
+    for step in (tables, overrides, effects, stub_effects, defaults_table, fast_paths_table, registration_table, parser_table, keyfile_table, load_validate_table, support_table, container_table):
         try:
             notes.update(step(repo))
         except Unknown as e:
